@@ -241,4 +241,572 @@ theorem lex_bounds (buf : Bytes) (pos : Nat) (h : pos ≤ buf.length) :
   · exact lb_newLine buf pos h
   · exact lb_programData buf pos h
 
+
+/-! ## the copy loops of the readers -/
+
+theorem copyText_go_bound (tok : Bytes) (q : UInt8) (cap : Nat) :
+    ∀ (fuel iFrom : Nat) (acc : Bytes), acc.length + 1 ≤ iFrom → acc.length ≤ cap →
+      (copyText.go tok q cap fuel iFrom acc).length ≤ cap := by
+  intro fuel
+  induction fuel with
+  | zero => intro iFrom acc _ h; simpa [copyText.go] using h
+  | succ fuel ih =>
+    intro iFrom acc h1 h2
+    unfold copyText.go
+    split
+    · split
+      · exact h2
+      · apply ih
+        · simp only [List.length_append, List.length_singleton]; split <;> omega
+        · simp only [List.length_append, List.length_singleton]; omega
+    · exact h2
+
+theorem copyText_bound (tok : Bytes) (q : UInt8) (cap : Nat) :
+    (copyText tok q cap).1.length ≤ cap ∧ ((copyText tok q cap).2 = true ↔ (copyText tok q cap).1.length < cap) := by
+  refine ⟨?_, ?_⟩
+  · exact copyText_go_bound tok q cap _ 1 [] (by simp) (by simp)
+  · simp [copyText]
+
+theorem paramArr_go_bound (w : Nat) (signed : Bool) :
+    ∀ (n : Nat) (c : Ctx) (m : Bool) (acc : List Int),
+      (paramArrInt.go w signed n c m acc).2.2.length ≤ acc.length + n := by
+  intro n
+  induction n with
+  | zero => intro c m acc; simp [paramArrInt.go]
+  | succ n ih =>
+    intro c m acc
+    unfold paramArrInt.go
+    generalize paramInt c w signed m = x
+    obtain ⟨c1, ok, v⟩ := x
+    simp only []
+    split
+    · have := ih c1 false (acc ++ [v])
+      simp only [List.length_append, List.length_singleton] at this
+      omega
+    · simp
+
+theorem paramArr_bound (c : Ctx) (w : Nat) (signed : Bool) (cap : Nat) (mand : Bool) :
+    (paramArrInt c w signed cap mand).2.2.length ≤ cap := by
+  have := paramArr_go_bound w signed cap c mand []
+  simpa [paramArrInt] using this
+
+/-! ## overrun -/
+
+theorem overrun_copies_nothing (c : Ctx) (data : Bytes) (_h : WF c) (hd : data ≠ [])
+    (hover : data.length + 1 > c.bufLen - c.position) :
+    (input c data).position = 0 ∧ (input c data).buf = c.buf.set 0 0 ∧
+    (input c data).events = c.events ++ [Ev.error (-363) none] ++
+      (if c.eq.fifo.count = c.eq.fifo.size then [Ev.error (-350) none] else []) ++ [Ev.input false] := by
+  have hl : (data.length == 0) = false := by
+    cases data with
+    | nil => exact absurd rfl hd
+    | cons a t => simp
+  unfold input
+  simp only [hl, Bool.false_eq_true, if_false, hover, if_true]
+  unfold pushError Fifo.EQ.push Fifo.add Fifo.isFull
+  by_cases hf : c.eq.fifo.count = c.eq.fifo.size
+  · simp [hf, emit, Fifo.overflowCode]
+  · simp [hf, emit]
+
+
+/-! ## frame: what the context-level functions never modify -/
+
+/-- closes `core x = core c` goals: by computation, or after rewriting with the frame lemmas proved so far -/
+macro "core_close" : tactic => `(tactic| first | rfl | (simp <;> rfl))
+
+/-- the buffer object, its declared length, the write position and the out-of-bounds flag -/
+def core (c : Ctx) : Bytes × Nat × Nat × Bool := (c.buf, c.bufLen, c.position, c.oob)
+
+@[simp] theorem core_emit (c : Ctx) (e : Ev) : core (emit c e) = core c := rfl
+
+@[simp] theorem core_pushError (c : Ctx) (code : Int) (info : Option Bytes) (n : Nat) :
+    core (pushError c code info n) = core c := by
+  unfold pushError
+  simp only []
+  split <;> rfl
+
+@[simp] theorem core_parameter (c : Ctx) (mand : Bool) : core (parameter c mand).1 = core c := by
+  unfold parameter
+  simp only []
+  repeat' split
+  all_goals core_close
+
+@[simp] theorem core_paramInt (c : Ctx) (w : Nat) (s m : Bool) : core (paramInt c w s m).1 = core c := by
+  unfold paramInt
+  simp only []
+  repeat' split
+  all_goals core_close
+
+@[simp] theorem core_paramFloat (c : Ctx) (d m : Bool) : core (paramFloat c d m).1 = core c := by
+  unfold paramFloat
+  simp only []
+  repeat' split
+  all_goals core_close
+
+@[simp] theorem core_paramToChoice (c : Ctx) (t : Token) (o : List (Bytes × Int)) :
+    core (paramToChoice c t o).1 = core c := by
+  unfold paramToChoice
+  simp only []
+  repeat' split
+  all_goals core_close
+
+@[simp] theorem core_paramBool (c : Ctx) (m : Bool) : core (paramBool c m).1 = core c := by
+  unfold paramBool
+  simp only []
+  repeat' split
+  all_goals core_close
+
+@[simp] theorem core_paramChoice (c : Ctx) (m : Bool) (o : List (Bytes × Int)) :
+    core (paramChoice c m o).1 = core c := by
+  unfold paramChoice
+  simp only []
+  repeat' split
+  all_goals core_close
+
+@[simp] theorem core_paramChars (c : Ctx) (m : Bool) : core (paramChars c m).1 = core c := by
+  unfold paramChars
+  simp only []
+  repeat' split
+  all_goals core_close
+
+@[simp] theorem core_paramBlock (c : Ctx) (m : Bool) : core (paramBlock c m).1 = core c := by
+  unfold paramBlock
+  simp only []
+  repeat' split
+  all_goals core_close
+
+@[simp] theorem core_paramText (c : Ctx) (m : Bool) (cap : Nat) : core (paramText c m cap).1 = core c := by
+  unfold paramText
+  simp only []
+  repeat' split
+  all_goals core_close
+
+theorem core_paramArr_go (w : Nat) (s : Bool) : ∀ (n : Nat) (c : Ctx) (m : Bool) (acc : List Int),
+    core (paramArrInt.go w s n c m acc).1 = core c := by
+  intro n
+  induction n with
+  | zero => intro c m acc; rfl
+  | succ n ih =>
+    intro c m acc
+    unfold paramArrInt.go
+    simp only []
+    split
+    · rw [ih]; simp
+    · simp
+
+@[simp] theorem core_paramArrInt (c : Ctx) (w : Nat) (s : Bool) (cap : Nat) (m : Bool) :
+    core (paramArrInt c w s cap m).1 = core c := core_paramArr_go w s cap c m []
+
+@[simp] theorem core_paramNumber (c : Ctx) (m : Bool) : core (paramNumber c m).1 = core c := by
+  unfold paramNumber
+  simp only []
+  repeat' split
+  all_goals core_close
+
+theorem core_runOp (h : HState) (op : SOp) : core (runOp h op).c = core h.c := by
+  unfold runOp
+  split
+  · rfl
+  · simp only []
+    cases op <;> simp only [] <;> (repeat' split) <;> core_close
+
+theorem core_foldl_runOp (s : List SOp) : ∀ h : HState, core (s.foldl runOp h).c = core h.c := by
+  induction s with
+  | nil => intro h; rfl
+  | cons op s ih => intro h; rw [List.foldl_cons, ih, core_runOp]
+
+@[simp] theorem core_runScript (c : Ctx) (s : List SOp) : core (runScript c s).1 = core c := by
+  unfold runScript
+  exact core_foldl_runOp s _
+
+theorem core_proj {c c' : Ctx} (h : core c' = core c) :
+    c'.buf = c.buf ∧ c'.bufLen = c.bufLen ∧ c'.position = c.position ∧ c'.oob = c.oob := by
+  simp only [core, Prod.mk.injEq] at h
+  exact h
+
+@[simp] theorem pushError_buf (c : Ctx) (code : Int) (info : Option Bytes) (n : Nat) :
+    (pushError c code info n).buf = c.buf := (core_proj (core_pushError c code info n)).1
+@[simp] theorem pushError_bufLen (c : Ctx) (code : Int) (info : Option Bytes) (n : Nat) :
+    (pushError c code info n).bufLen = c.bufLen := (core_proj (core_pushError c code info n)).2.1
+@[simp] theorem pushError_position (c : Ctx) (code : Int) (info : Option Bytes) (n : Nat) :
+    (pushError c code info n).position = c.position := (core_proj (core_pushError c code info n)).2.2.1
+@[simp] theorem pushError_oob (c : Ctx) (code : Int) (info : Option Bytes) (n : Nat) :
+    (pushError c code info n).oob = c.oob := (core_proj (core_pushError c code info n)).2.2.2
+@[simp] theorem runScript_buf (c : Ctx) (s : List SOp) : (runScript c s).1.buf = c.buf :=
+  (core_proj (core_runScript c s)).1
+@[simp] theorem runScript_bufLen (c : Ctx) (s : List SOp) : (runScript c s).1.bufLen = c.bufLen :=
+  (core_proj (core_runScript c s)).2.1
+@[simp] theorem runScript_position (c : Ctx) (s : List SOp) : (runScript c s).1.position = c.position :=
+  (core_proj (core_runScript c s)).2.2.1
+@[simp] theorem runScript_oob (c : Ctx) (s : List SOp) : (runScript c s).1.oob = c.oob :=
+  (core_proj (core_runScript c s)).2.2.2
+
+@[simp] theorem core_processCommand (c : Ctx) : core (processCommand c).1 = core c := by
+  unfold processCommand
+  simp only []
+  repeat' split
+  all_goals simp [core, emit]
+
+/-! ## stores into a byte list -/
+
+/-- `r` differs from `b` only inside `[lo, hi)` -/
+def Frame (lo hi : Nat) (b r : Bytes) : Prop :=
+  r.length = b.length ∧ r.take lo = b.take lo ∧ r.drop hi = b.drop hi
+
+theorem Frame.refl (lo hi : Nat) (b : Bytes) : Frame lo hi b b := ⟨rfl, rfl, rfl⟩
+
+theorem Frame.trans {lo hi : Nat} {a b c : Bytes} (h1 : Frame lo hi a b) (h2 : Frame lo hi b c) : Frame lo hi a c :=
+  ⟨h2.1.trans h1.1, h2.2.1.trans h1.2.1, h2.2.2.trans h1.2.2⟩
+
+theorem take_eq_mono {a b : Bytes} {n m : Nat} (hnm : n ≤ m) (h : a.take m = b.take m) : a.take n = b.take n := by
+  have h1 : a.take n = (a.take m).take n := by rw [List.take_take, Nat.min_eq_left hnm]
+  have h2 : b.take n = (b.take m).take n := by rw [List.take_take, Nat.min_eq_left hnm]
+  rw [h1, h2, h]
+
+theorem drop_eq_mono {a b : Bytes} {n m : Nat} (hnm : n ≤ m) (h : a.drop n = b.drop n) : a.drop m = b.drop m := by
+  have h1 : a.drop m = (a.drop n).drop (m - n) := by rw [List.drop_drop]; congr 1; omega
+  have h2 : b.drop m = (b.drop n).drop (m - n) := by rw [List.drop_drop]; congr 1; omega
+  rw [h1, h2, h]
+
+theorem Frame.mono {lo hi lo' hi' : Nat} {b r : Bytes} (h : Frame lo hi b r) (h1 : lo' ≤ lo) (h2 : hi ≤ hi') :
+    Frame lo' hi' b r :=
+  ⟨h.1, take_eq_mono h1 h.2.1, drop_eq_mono h2 h.2.2⟩
+
+theorem frame_set (lo hi i : Nat) (x : UInt8) (b : Bytes) (h1 : lo ≤ i) (h2 : i < hi) : Frame lo hi b (b.set i x) :=
+  ⟨List.length_set, List.take_set_of_le h1, List.drop_set_of_lt h2⟩
+
+theorem frame_foldl_set {α : Type} (g : α → Nat) (v : α → UInt8) (lo hi : Nat) :
+    ∀ (l : List α) (b : Bytes), (∀ a ∈ l, lo ≤ g a ∧ g a < hi) →
+      Frame lo hi b (l.foldl (fun b a => b.set (g a) (v a)) b) := by
+  intro l
+  induction l with
+  | nil => intro b _; exact Frame.refl _ _ _
+  | cons a l ih =>
+    intro b h
+    rw [List.foldl_cons]
+    have ha := h a (List.mem_cons_self)
+    exact (frame_set lo hi (g a) (v a) b ha.1 ha.2).trans (ih _ (fun a' h' => h a' (List.mem_cons_of_mem _ h')))
+
+/-- the memmove / memcpy idiom of the models: `src` stored at `start ..` -/
+theorem frame_store (src : Bytes) (start : Nat) (b : Bytes) :
+    Frame start (start + src.length) b ((src.zipIdx).foldl (fun b (x, k) => b.set (start + k) x) b) := by
+  have := frame_foldl_set (fun (p : UInt8 × Nat) => start + p.2) (fun p => p.1) start (start + src.length)
+    src.zipIdx b (by
+      intro a ha
+      have := List.snd_lt_of_mem_zipIdx ha
+      show start ≤ start + a.2 ∧ start + a.2 < start + src.length
+      omega)
+  exact this
+
+theorem frame_poke (b : Bytes) (at_ : Nat) (data : Bytes) : Frame at_ (at_ + data.length) b (poke b at_ data) :=
+  frame_store data at_ b
+
+/-! ## in-place composition of compound headers -/
+
+theorem compose_inv (buf : Bytes) (prev : Option (Nat × Nat)) (cur : Nat × Nat) (B : Nat)
+    (hcur : 0 < cur.2) (hB : B ≤ cur.1)
+    (hprev : ∀ pp pl, prev = some (pp, pl) → B ≤ pp ∧ pp + pl ≤ cur.1) :
+    (Match.composeCompound buf prev cur).2.2 = true ∧
+    Frame B cur.1 buf (Match.composeCompound buf prev cur).1 ∧
+    B ≤ (Match.composeCompound buf prev cur).2.1.1 ∧
+    (Match.composeCompound buf prev cur).2.1.1 + (Match.composeCompound buf prev cur).2.1.2 = cur.1 + cur.2 := by
+  unfold Match.composeCompound
+  have hc0 : (cur.2 == 0) = false := by simp; omega
+  simp only [hc0, Bool.false_eq_true, if_false]
+  cases prev with
+  | none => exact ⟨rfl, Frame.refl _ _ _, hB, rfl⟩
+  | some p =>
+    obtain ⟨pp, pl⟩ := p
+    obtain ⟨hp1, hp2⟩ := hprev pp pl rfl
+    simp only []
+    repeat' split
+    all_goals first | exact ⟨rfl, Frame.refl _ _ _, hB, rfl⟩ | skip
+    · -- the flagged case cannot happen: the previous header lies before the current one
+      rename_i hlt
+      exfalso
+      revert hlt
+      cases hf : (List.range pl).reverse.find? (fun k => Match.rd buf (pp + k) == 58) with
+      | none => simp
+      | some k =>
+        have hk := List.mem_of_find?_eq_some hf
+        simp only [List.mem_reverse, List.mem_range] at hk
+        simp only [Option.map_some, Option.getD_some]
+        omega
+    · rename_i hne hge
+      revert hne hge
+      cases hf : (List.range pl).reverse.find? (fun k => Match.rd buf (pp + k) == 58) with
+      | none => simp
+      | some k =>
+        have hk := List.mem_of_find?_eq_some hf
+        simp only [List.mem_reverse, List.mem_range] at hk
+        simp only [Option.map_some, Option.getD_some]
+        intro _ hge
+        have hfr := frame_store ((List.range (k + 1)).map (fun j => Match.rd buf (pp + j))) (cur.1 - (k + 1)) buf
+        simp only [List.length_map, List.length_range] at hfr
+        refine ⟨trivial, hfr.mono (by omega) (by omega), by omega, by omega⟩
+
+/-! ## the message unit: the header token lies inside the consumed part -/
+
+section
+open ScpiVerif.Lemmas.Lexer
+
+theorem detect_header_inside (s : Bytes) (hinv : (detectUnit s).header.type ≠ .invalid)
+    (hpos : 0 < (detectUnit s).header.len) :
+    (detectUnit s).header.ptr + (detectUnit s).header.len.toNat ≤ (detectUnit s).consumed := by
+  have hw0 := unit_wsLen_le s
+  obtain ⟨hl, ht, hh, a1, a2, a3, a4, a5, a6, a7⟩ := unit_header s (wsLen s) hw0
+  have hb1 := unit_ws_bound s (wsLen s + hl) a7
+  have hm : ∃ data n p, detectUnit s = unit_tail s (lexProgramHeader s (wsLen s)).2.1 (p, data, n) ∧
+      wsLen s + hl ≤ p ∧ p ≤ s.length := by
+    rw [unit_detect_eq, unit_ws]
+    simp only [List.drop_zero, Nat.zero_add]
+    generalize lexProgramHeader s (wsLen s) = x1 at a1 a2
+    obtain ⟨p1, hdr, hlen⟩ := x1
+    simp only at a1 a2
+    subst a1 a2
+    rw [unit_ws]
+    have hge : ((hl : Int) ≥ 0) := by omega
+    simp only [hge, if_true]
+    by_cases hw : wsLen (s.drop (wsLen s + hl)) > 0
+    · have hw' : ((wsLen (s.drop (wsLen s + hl)) : Nat) : Int) > 0 := by omega
+      simp only [hw', if_true]
+      obtain ⟨c1, c2, c3⟩ := unit_allData s (wsLen s + hl + wsLen (s.drop (wsLen s + hl))) hb1
+      exact ⟨_, _, _, rfl, by omega, c3⟩
+    · have hw' : ¬ ((wsLen (s.drop (wsLen s + hl)) : Nat) : Int) > 0 := by omega
+      simp only [hw', if_false]
+      exact ⟨_, _, _, rfl, by omega, hb1⟩
+  obtain ⟨data, n, p, e1, e2, e3⟩ := hm
+  obtain ⟨t1, t2, t3, t4, t5, t6, t7, t8, t9⟩ := unit_tail_spec s (lexProgramHeader s (wsLen s)).2.1 data n p (wsLen s) hl ht e3
+  rw [e1] at hinv hpos ⊢
+  rcases t6 with ⟨b1, -⟩ | ⟨b1, -⟩
+  · rw [b1] at hpos ⊢
+    rw [a4] at hpos ⊢
+    rw [a5 (by omega)]
+    omega
+  · exact absurd b1 hinv
+
+end
+
+/-! ## the unit loop of SCPI_Parse -/
+
+@[simp] theorem processCommand_buf (c : Ctx) : (processCommand c).1.buf = c.buf :=
+  (core_proj (core_processCommand c)).1
+@[simp] theorem processCommand_bufLen (c : Ctx) : (processCommand c).1.bufLen = c.bufLen :=
+  (core_proj (core_processCommand c)).2.1
+@[simp] theorem processCommand_position (c : Ctx) : (processCommand c).1.position = c.position :=
+  (core_proj (core_processCommand c)).2.2.1
+@[simp] theorem processCommand_oob (c : Ctx) : (processCommand c).1.oob = c.oob :=
+  (core_proj (core_processCommand c)).2.2.2
+
+/-- the header handling of one iteration of `parseLoop` -/
+def stepUnit (c : Ctx) (base len : Nat) (prev : Option (Nat × Nat)) (res : Bool) : Ctx × Option (Nat × Nat) × Bool :=
+  let u := Parser.detectUnit ((c.buf.drop base).take len)
+  let r := u.consumed
+  if u.header.type == .invalid then (pushError c (-101) none, prev, false)
+  else if u.header.len > 0 ∧ u.nParams < 0 then (pushError c (-103) none, prev, false)
+  else if u.header.len > 0 then
+    let cur := (base + u.header.ptr, u.header.len.toNat)
+    let (buf, cur, okc) := Match.composeCompound c.buf prev cur
+    let c := { c with buf := buf, oob := c.oob || !okc }
+    let prev := some cur
+    match findCommand c cur.1 cur.2 with
+    | some cmd =>
+      let c := { c with pbase := base + u.data.ptr, ppos := base + u.data.ptr, plen := u.data.len.toNat,
+                        cur := some cmd, rawOff := cur.1, rawLen := cur.2 }
+      let (c, ok) := processCommand c
+      (c, prev, res && ok)
+    | none =>
+      let txt := (c.buf.drop base).take r
+      let r2 := (txt.reverse.dropWhile (fun b => b == 13 || b == 10)).length
+      (pushError c (-113) (some (txt.take r2)) r2, prev, false)
+  else (c, prev, res)
+
+theorem parseLoop_succ (fuel : Nat) (c : Ctx) (base len : Nat) (prev : Option (Nat × Nat)) (res : Bool) :
+    parseLoop (fuel + 1) c base len prev res =
+      if (Parser.detectUnit ((c.buf.drop base).take len)).consumed < len then
+        parseLoop fuel (stepUnit c base len prev res).1
+          (base + (Parser.detectUnit ((c.buf.drop base).take len)).consumed)
+          (len - (Parser.detectUnit ((c.buf.drop base).take len)).consumed)
+          (stepUnit c base len prev res).2.1 (stepUnit c base len prev res).2.2
+      else ((stepUnit c base len prev res).1, (stepUnit c base len prev res).2.2) := by
+  rfl
+
+theorem window_length_le (buf : Bytes) (base len : Nat) : ((buf.drop base).take len).length ≤ len := by
+  simp only [List.length_take]; omega
+
+theorem window_length (buf : Bytes) (base len : Nat) (h : base + len ≤ buf.length) :
+    ((buf.drop base).take len).length = len := by
+  simp only [List.length_take, List.length_drop]; omega
+
+theorem stepUnit_inv (B L : Nat) (c : Ctx) (base len : Nat) (prev : Option (Nat × Nat)) (res : Bool)
+    (ho : c.oob = false) (hB : B ≤ base) (hsum : base + len = B + L)
+    (hprev : ∀ pp pl, prev = some (pp, pl) → B ≤ pp ∧ pp + pl ≤ base) :
+    (stepUnit c base len prev res).1.oob = false ∧
+    Frame B (B + L) c.buf (stepUnit c base len prev res).1.buf ∧
+    (stepUnit c base len prev res).1.bufLen = c.bufLen ∧
+    (stepUnit c base len prev res).1.position = c.position ∧
+    (∀ pp pl, (stepUnit c base len prev res).2.1 = some (pp, pl) →
+      B ≤ pp ∧ pp + pl ≤ base + (Parser.detectUnit ((c.buf.drop base).take len)).consumed) := by
+  have hcons : (Parser.detectUnit ((c.buf.drop base).take len)).consumed ≤ len :=
+    Nat.le_trans (Props.C13.unit_spec _).2.2.2.2.1 (window_length_le _ _ _)
+  have hprev' : ∀ pp pl, prev = some (pp, pl) →
+      B ≤ pp ∧ pp + pl ≤ base + (Parser.detectUnit ((c.buf.drop base).take len)).consumed := by
+    intro pp pl h; have := hprev pp pl h; omega
+  unfold stepUnit
+  simp only []
+  split
+  · simp only [pushError_oob, pushError_buf, pushError_bufLen, pushError_position]
+    exact ⟨ho, Frame.refl _ _ _, trivial, trivial, hprev'⟩
+  · split
+    · simp only [pushError_oob, pushError_buf, pushError_bufLen, pushError_position]
+      exact ⟨ho, Frame.refl _ _ _, trivial, trivial, hprev'⟩
+    · split
+      · rename_i hinv _ hlen
+        have hinv' : (Parser.detectUnit ((c.buf.drop base).take len)).header.type ≠ .invalid := by
+          intro h; apply hinv; rw [h]; rfl
+        have hin := detect_header_inside _ hinv' hlen
+        have hci := compose_inv c.buf prev
+          (base + (Parser.detectUnit ((c.buf.drop base).take len)).header.ptr,
+           (Parser.detectUnit ((c.buf.drop base).take len)).header.len.toNat) B
+          (by simp only; omega) (by simp only; omega)
+          (by intro pp pl h; have := hprev pp pl h; simp only; omega)
+        generalize Match.composeCompound c.buf prev
+          (base + (Parser.detectUnit ((c.buf.drop base).take len)).header.ptr,
+           (Parser.detectUnit ((c.buf.drop base).take len)).header.len.toNat) = cc at hci
+        obtain ⟨buf', cur', okc⟩ := cc
+        obtain ⟨k1, k2, k3, k4⟩ := hci
+        simp only at k1 k2 k3 k4
+        have hfr : Frame B (B + L) c.buf buf' := k2.mono (Nat.le_refl _) (by omega)
+        have hpn : ∀ pp pl, some cur' = some (pp, pl) →
+            B ≤ pp ∧ pp + pl ≤ base + (Parser.detectUnit ((c.buf.drop base).take len)).consumed := by
+          intro pp pl h
+          cases h
+          simp only at k3 k4
+          omega
+        simp only []
+        split
+        · simp only [processCommand_oob, processCommand_buf, processCommand_bufLen, processCommand_position]
+          refine ⟨by simp [ho, k1], hfr, trivial, trivial, hpn⟩
+        · simp only [pushError_oob, pushError_buf, pushError_bufLen, pushError_position]
+          refine ⟨by simp [ho, k1], hfr, trivial, trivial, hpn⟩
+      · exact ⟨ho, Frame.refl _ _ _, rfl, rfl, hprev'⟩
+
+theorem parseLoop_inv (B L : Nat) : ∀ (fuel : Nat) (c : Ctx) (base len : Nat) (prev : Option (Nat × Nat)) (res : Bool),
+    c.oob = false → B ≤ base → base + len = B + L → B + L ≤ c.buf.length →
+    (∀ pp pl, prev = some (pp, pl) → B ≤ pp ∧ pp + pl ≤ base) → len + 1 ≤ fuel →
+    (parseLoop fuel c base len prev res).1.oob = false ∧
+    Frame B (B + L) c.buf (parseLoop fuel c base len prev res).1.buf ∧
+    (parseLoop fuel c base len prev res).1.bufLen = c.bufLen ∧
+    (parseLoop fuel c base len prev res).1.position = c.position := by
+  intro fuel
+  induction fuel with
+  | zero => intro c base len prev res _ _ _ _ _ hf; omega
+  | succ fuel ih =>
+    intro c base len prev res ho hB hsum hN hprev hf
+    obtain ⟨s1, s2, s3, s4, s5⟩ := stepUnit_inv B L c base len prev res ho hB hsum hprev
+    rw [parseLoop_succ]
+    split
+    · rename_i hlt
+      have hwl := window_length c.buf base len (by omega)
+      have hne : (c.buf.drop base).take len ≠ [] := by
+        intro h; rw [h] at hwl; simp at hwl; omega
+      have h1 := (Props.C13.unit_spec ((c.buf.drop base).take len)).2.2.2.2.2 hne
+      obtain ⟨i1, i2, i3, i4⟩ := ih (stepUnit c base len prev res).1
+        (base + (Parser.detectUnit ((c.buf.drop base).take len)).consumed)
+        (len - (Parser.detectUnit ((c.buf.drop base).take len)).consumed)
+        (stepUnit c base len prev res).2.1 (stepUnit c base len prev res).2.2
+        s1 (by omega) (by omega) (by rw [s2.1]; exact hN) s5 (by omega)
+      exact ⟨i1, s2.trans i2, i3.trans s3, i4.trans s4⟩
+    · exact ⟨s1, s2, s3, s4⟩
+
+theorem parse_frame (c : Ctx) (base len : Nat) (hb : base + len ≤ c.buf.length) (ho : c.oob = false) :
+    (parse c base len).1.oob = false ∧ Frame base (base + len) c.buf (parse c base len).1.buf ∧
+    (parse c base len).1.bufLen = c.bufLen ∧ (parse c base len).1.position = c.position := by
+  unfold parse
+  simp only []
+  exact parseLoop_inv base len (len + 2) _ base len none true ho (Nat.le_refl _) rfl hb
+    (by intro pp pl h; cases h) (by omega)
+
+theorem parse_inside (c : Ctx) (base len : Nat) (hb : base + len ≤ c.buf.length) (ho : c.oob = false) :
+    let c' := (parse c base len).1
+    c'.oob = false ∧ c'.buf.length = c.buf.length ∧
+    c'.buf.take base = c.buf.take base ∧ c'.buf.drop (base + len) = c.buf.drop (base + len) := by
+  obtain ⟨h1, h2, _, _⟩ := parse_frame c base len hb ho
+  exact ⟨h1, h2.1, h2.2.1, h2.2.2⟩
+
+/-! ## SCPI_Input -/
+
+theorem wf_emit {c : Ctx} (e : Ev) (h : WF c) : WF (emit c e) := h
+
+theorem poke_length (b : Bytes) (at_ : Nat) (data : Bytes) : (poke b at_ data).length = b.length :=
+  (frame_poke b at_ data).1
+
+theorem inputLoop_wf : ∀ (fuel : Nat) (c : Ctx) (tot : Nat) (res : Bool),
+    WF c → tot ≤ c.position → WF (inputLoop fuel c tot res).1 := by
+  intro fuel
+  induction fuel with
+  | zero => intro c tot res h _; exact h
+  | succ fuel ih =>
+    intro c tot res h ht
+    obtain ⟨w1, w2, w3⟩ := h
+    have hcons : (Parser.detectUnit ((c.buf.drop tot).take (c.position - tot))).consumed ≤ c.position - tot :=
+      Nat.le_trans (Props.C13.unit_spec _).2.2.2.2.1 (window_length_le _ _ _)
+    unfold inputLoop
+    simp only []
+    generalize Parser.detectUnit ((c.buf.drop tot).take (c.position - tot)) = u at hcons ⊢
+    split
+    · have hle : 0 + (tot + u.consumed) ≤ c.buf.length := by omega
+      obtain ⟨p1, p2, p3, p4⟩ := parse_frame c 0 (tot + u.consumed) hle w3
+      generalize parse c 0 (tot + u.consumed) = x at p1 p2 p3 p4 ⊢
+      obtain ⟨c1, r⟩ := x
+      simp only at p1 p2 p3 p4 ⊢
+      apply ih
+      · refine ⟨?_, ?_, p1⟩
+        · show (poke _ _ _).length = _
+          rw [poke_length, p2.1]; exact w1.trans p3.symm
+        · show _ - _ < c1.bufLen
+          rw [p3, p4]; omega
+      · exact Nat.zero_le _
+    · split
+      · exact ⟨w1, w2, w3⟩
+      · split
+        · exact ⟨w1, w2, w3⟩
+        · exact ih c _ res ⟨w1, w2, w3⟩ (by omega)
+
+theorem input_wf (c : Ctx) (data : Bytes) (h : WF c) : WF (input c data) := by
+  obtain ⟨w1, w2, w3⟩ := h
+  unfold input
+  split
+  · simp only []
+    apply wf_emit
+    have hle : 0 + c.position ≤ ({ c with buf := c.buf.set c.position 0 } : Ctx).buf.length := by
+      show 0 + c.position ≤ (c.buf.set c.position 0).length
+      rw [List.length_set]; omega
+    obtain ⟨p1, p2, p3, p4⟩ := parse_frame { c with buf := c.buf.set c.position 0 } 0 c.position hle w3
+    generalize parse { c with buf := c.buf.set c.position 0 } 0 c.position = x at p1 p2 p3 p4 ⊢
+    obtain ⟨c1, r⟩ := x
+    simp only at p1 p2 p3 p4 ⊢
+    have p5 := p2.1
+    rw [List.length_set] at p5
+    refine ⟨?_, ?_, p1⟩
+    · show c1.buf.length = c1.bufLen
+      rw [p5, p3]; exact w1
+    · show 0 < c1.bufLen
+      rw [p3]; omega
+  · simp only []
+    split
+    · apply wf_emit
+      refine ⟨?_, ?_, ?_⟩
+      · simp only [pushError_buf, pushError_bufLen, List.length_set]; exact w1
+      · simp only [pushError_position, pushError_bufLen]; omega
+      · simp only [pushError_oob]; exact w3
+    · apply wf_emit
+      apply inputLoop_wf
+      · refine ⟨?_, ?_, w3⟩
+        · show ((poke _ _ _).set _ _).length = c.bufLen
+          rw [List.length_set, poke_length]; exact w1
+        · show c.position + data.length < c.bufLen
+          omega
+      · exact Nat.zero_le _
+
 end ScpiVerif.Lemmas.Bounds
